@@ -109,9 +109,12 @@ Proof.
       rewrite app_nil_r in T. exact T. }
   destruct (unz raw) as [ip|].
   2:{ intros H. inversion H. subst. apply Final. split; [apply acc_refl|apply sprog_refl]. }
-  destruct (find_user_by_ip st (le32_at ip 20) now) as [t|] eqn:F.
+  set (found := if (24 <=? length ip)%nat then find_user_by_ip st (le32_at ip 20) now else None).
+  assert (Hfound : forall t, found = Some t -> (t < length st)%nat).
+  { subst found. intros t. destruct (24 <=? length ip)%nat; [apply find_user_by_ip_bound|discriminate]. }
+  destruct found as [t|].
   2:{ intros H. inversion H. subst. apply Final. split; [apply acc_same_held; reflexivity|apply sprog_refl]. }
-  apply find_user_by_ip_bound in F.
+  pose proof (Hfound t eq_refl) as F. clear Hfound.
   destruct (u_conn (getu st t)).
   { intros H. inversion H. subst. apply Final. split; [apply acc_same_held; reflexivity|apply sprog_refl]. }
   destruct (p_len (u_out (getu st t)) =? 0).
@@ -136,6 +139,8 @@ Proof.
   unfold tunnel_tun. destruct inpkt as [|b inpkt'].
   { intros H. inversion H. subst. split; [apply acc_refl|apply sprog_refl]. }
   set (inpkt := b :: inpkt').
+  destruct (length inpkt <? 24)%nat.
+  { intros H. inversion H. subst. split; [apply acc_refl|apply sprog_refl]. }
   destruct (find_user_by_ip st (le32_at inpkt 20) now) as [t|] eqn:F.
   2:{ intros H. inversion H. subst. split; [apply acc_refl|apply sprog_refl]. }
   apply find_user_by_ip_bound in F. cbv zeta.
